@@ -249,13 +249,17 @@ impl MaxBuilder {
     }
 
     // FontTools maxp <https://github.com/fonttools/fonttools/blob/e8146a6d0725d398cfa110cba683946ee762f8e2/Lib/fontTools/ttLib/tables/_m_a_x_p.py#L53>
-    fn update_composite_limits(&mut self) -> GlyphLimits {
+    //
+    // Fails with the id of the offending glyph if the totals of a composite
+    // glyph don't fit the 16-bit fields of maxp.
+    fn update_composite_limits(&mut self) -> Result<GlyphLimits, GlyphId16> {
         let mut pending = self
             .glyph_info
             .iter()
             .filter_map(|(gid, gi)| if gi.is_component() { Some(*gid) } else { None })
             .collect::<Vec<_>>();
         let mut overall_max = GlyphLimits::default();
+        let mut overflow = None;
         let mut components: Vec<Option<GlyphLimits>> = Vec::with_capacity(8);
         while !pending.is_empty() {
             let size_before = pending.len();
@@ -277,25 +281,34 @@ impl MaxBuilder {
                     return true;
                 }
                 // We know the limits of all child components; a final result is achievable
-                let limit = components.iter().map(|limits| limits.unwrap()).fold(
+                let limit = components.iter().map(|limits| limits.unwrap()).try_fold(
                     GlyphLimits::default(),
-                    |acc, e| GlyphLimits {
-                        max_points: acc.max_points + e.max_points,
-                        max_contours: acc.max_contours + e.max_contours,
-                        max_depth: acc.max_depth.max(e.max_depth + 1),
+                    |acc, e| {
+                        Some(GlyphLimits {
+                            max_points: acc.max_points.checked_add(e.max_points)?,
+                            max_contours: acc.max_contours.checked_add(e.max_contours)?,
+                            max_depth: acc.max_depth.max(e.max_depth.checked_add(1)?),
+                        })
                     },
                 );
+                let Some(limit) = limit else {
+                    overflow.get_or_insert(*gid);
+                    return false;
+                };
                 self.glyph_info.get_mut(gid).unwrap().limits = Some(limit);
                 overall_max = overall_max.max(limit);
                 false
             });
+            if let Some(gid) = overflow {
+                return Err(gid);
+            }
             assert!(
                 pending.len() < size_before,
                 "Stuck with {size_before} of unknown depth"
             );
         }
 
-        overall_max
+        Ok(overall_max)
     }
 }
 
@@ -422,7 +435,19 @@ impl Work<Context, AnyWorkId, Error> for MetricAndLimitWork {
                 });
 
         // Might as well do maxp while we're here
-        let composite_limits = max_builder.update_composite_limits();
+        let composite_limits =
+            max_builder
+                .update_composite_limits()
+                .map_err(|gid| Error::OutOfBounds {
+                    what: format!(
+                        "'{}' total number of points, contours or levels of its components",
+                        glyph_order
+                            .glyph_name(gid.to_u16() as usize)
+                            .map(|name| name.as_str())
+                            .unwrap_or_default()
+                    ),
+                    value: format!("more than {}", u16::MAX),
+                })?;
         let maxp = Maxp {
             num_glyphs: glyph_order.len().try_into().unwrap(),
             // maxp computes it's version based on whether fields are set
@@ -507,5 +532,35 @@ mod tests {
         let mut glyph_limits = MetricsBuilder::default();
         glyph_limits.update(width, 0, None);
         assert_eq!(width, glyph_limits.advance_max);
+    }
+
+    #[test]
+    fn composite_totals_that_do_not_fit_maxp_are_an_error() {
+        let simple = |max_points| GlyphInfo {
+            limits: Some(GlyphLimits {
+                max_points,
+                max_contours: 1,
+                max_depth: 0,
+            }),
+            components: None,
+        };
+        let (gid0, gid1, composite) = (GlyphId16::new(0), GlyphId16::new(1), GlyphId16::new(2));
+        let mut builder = MaxBuilder::default();
+        builder.glyph_info.insert(gid0, simple(40000));
+        builder.glyph_info.insert(gid1, simple(25535));
+        builder.glyph_info.insert(
+            composite,
+            GlyphInfo {
+                limits: None,
+                components: Some(vec![gid0, gid1]),
+            },
+        );
+        assert_eq!(
+            builder.update_composite_limits().unwrap().max_points,
+            u16::MAX
+        );
+
+        builder.glyph_info.insert(gid1, simple(25536));
+        assert_eq!(builder.update_composite_limits().unwrap_err(), composite);
     }
 }
